@@ -38,8 +38,8 @@ Definition rangesb (r : raw_cfg) : bool :=
 
 Definition supportedb (r : raw_cfg) : bool :=
   match dist r with DistNone => true | DistUnsupported => false end
-  && match pc_kind r with PCUnsupported => false | _ => true end
-  && match gkind r with GraftUnsupported => false | _ => true end.
+  && (match pc_kind r with PCUnsupported => false | _ => true end && negb (pc_sub r))
+  && match gkind r with GraftNone => true | GraftUnsupported => false | _ => negb (gsub r) end.
 
 Definition is_nan (x : pynum) : bool := match x with NaN => true | _ => false end.
 Definition platform_typedb (r : raw_cfg) : bool := is_int64 (mpd r) && negb (is_nan (nt r)).
@@ -110,10 +110,9 @@ Qed.
 
 Lemma supportedb_spec r : supportedb r = true <-> supported r.
 Proof.
-  unfold supportedb, supported.
-  destruct (dist r), (pc_kind r), (gkind r); cbn; split; intros H;
-    try reflexivity; try discriminate; try (repeat split; discriminate);
-    destruct H as (A & B & C); congruence.
+  rewrite supported_spec. unfold supportedb, pc_type_known, graft_type_known.
+  destruct (dist r), (pc_kind r), (pc_sub r), (gkind r), (gsub r); cbn; split; intros H;
+    try reflexivity; try discriminate; try (repeat split; reflexivity); destruct H as (A & B & C); discriminate.
 Qed.
 
 Lemma platform_typedb_spec r : platform_typedb r = true <-> platform_typed r.
